@@ -509,7 +509,8 @@ class GridsBattery:
                     if len(samples) < 4:
                         samples.append(info)
                     if not ok:
-                        viol.setdefault(f"{self.name}[{cname}]::well-formed-targets-and-nesting", {"obligation": f"{self.name}[{cname}]::well-formed-targets-and-nesting", "bounded": self.name, "witness": info})
+                        lab = f"{self.name}[{cname}]::well-formed-targets-and-nesting[{mname},h={h}]"      # one label per input: a known finding never hides another input
+                        viol.setdefault(lab, {"obligation": lab, "bounded": self.name, "witness": info})
         return {"name": self.name, "evaluations": ev, "distinct_nontrivial": ev, "violations": list(viol.values()), "samples": samples,
                 "bound": f"models {sorted(ms)} x h in {H} x 3 constructors x 2 refinements"}
 
